@@ -341,8 +341,32 @@ def handleSc (order faults ae enc method etag : String) : String :=
           | some (.sidecar c) => bytesToString c)
   | _, _, _ => "bad-op"
 
+/-! ### the `mr` op: `mr <k> <12 fields> … <12 fields>` — k = 2..4 requests, one after the other, through ONE
+    Encode instance (same enc / prefer / minimum_length / matcher fields in every request). The answer of each
+    request is computed from that request alone: what the instance carries from one response to the next (the
+    pooled encoder objects, Pool.lean; the memory of the response writer, Writer.lean) is proved invisible
+    (`request_outcome_is_its_own`, `encoder_reuse_across_requests_invisible`). -/
+
+def chunks12 : Nat → List String → Option (List (List String))
+  | 0, [] => some []
+  | 0, _ :: _ => none
+  | n + 1, l => if l.length < 12 then none else (chunks12 n (l.drop 12)).map (fun r => l.take 12 :: r)
+
+def handleMr (k : String) (rest : List String) : String :=
+  match (if k == "2" then some 2 else if k == "3" then some 3 else if k == "4" then some 4 else none) with
+  | none => "bad-op"
+  | some n =>
+    match chunks12 n rest with
+    | none => "bad-op"
+    | some reqs =>
+      if !reqs.all (fun r => r.take 4 == rest.take 4) then "bad-op"
+      else if (reqs.map (handleOrdinary none)).any (· == "bad-op") then "bad-op"
+      else if (reqs.map (handleOrdinary none)).any (· == "unsupported") then "unsupported"
+      else "mr " ++ " ## ".intercalate (reqs.map (handleOrdinary none))
+
 def handle : List String → String
   | ["cf", args, block] => handleCf args block
+  | "mr" :: k :: rest => handleMr k rest
   | ["sc", order, faults, ae, enc, method, etag] => handleSc order faults ae enc method etag
   | "rr" :: mode :: rest =>
     if mode == "0" then handleOrdinary (some 0) rest
